@@ -429,6 +429,10 @@ ROLES = [
     ('playback.interception.files.file_interception', 'FileInterception', '_get_file_path',
      lambda n: isinstance(n, ast.Attribute) and n.attr == 'file_path_arg_name' and isinstance(n.ctx, ast.Load) and isinstance(n.value, ast.Name) and n.value.id == 'self',
      '_path__outlined', 'pure-dup'),
+    # (the same lookup written in place in the input handler, a subclass in a module of its own)
+    ('playback.interception.files.input_file_interception', 'InputInterceptionFileDataHandler', '_get_file_path',
+     lambda n: isinstance(n, ast.Attribute) and n.attr == 'file_path_arg_name' and isinstance(n.ctx, ast.Load) and isinstance(n.value, ast.Name) and n.value.id == 'self',
+     '_path__outlined', 'pure-dup'),
     ('playback.studio.studio', 'PlaybackStudio', '_group_recording_ids_by_categories',
      lambda n: isinstance(n, ast.Call) and isinstance(n.func, ast.Attribute) and n.func.attr == 'extract_recording_category',
      '_grouping__outlined', 'block'),
